@@ -239,6 +239,11 @@ def primitive_family() -> tuple[Fam, dict[str, Any]]:
         ("tuple iteration", [("r", "tuple")], ["return [v for v in r]"]),
         ("tuple from list / len", [("r", "list")], ["t = tuple(r)", "return [t, len(t)]"]),
         ("tuple unpack fixed", [("r", "tuple")], ["p, q = r", "return [q, p]"]),
+        # d.setdefault(k, <empty display>) is a primitive of its own (specialize.translate_dict_setdefault): the fresh
+        # container is made visible to the reference-count oracle by storing a tracked object in it
+        ("dict setdefault fresh list", [("r", "dict"), ("x", "object"), ("y", "object")], ["v = r.setdefault(x, [])", "v.append(y)", "return r"]),
+        ("dict setdefault fresh dict", [("r", "dict"), ("x", "object"), ("y", "object")], ["v = r.setdefault(x, {})", "v[1] = y", "return r"]),
+        ("dict setdefault fresh set", [("r", "dict"), ("x", "object"), ("y", "object")], ["v = r.setdefault(x, set())", "v.add(1)", "return [r, y]"]),
         ("set display", [("x", "object"), ("y", "object")], ["return {x, y}"]),
         ("set add", [("r", "set"), ("x", "object")], ["r.add(x)", "return r"]),
         ("set discard", [("r", "set"), ("x", "object")], ["r.discard(x)", "return r"]),
